@@ -20,7 +20,7 @@ META = {
     "encoded": ["csr.reg.Builder.__init__", "csr.reg.Builder.add", "csr.reg.Builder.Cluster", "csr.reg.Builder.Index",
                 "csr.reg.Builder.freeze", "csr.reg.Builder.as_memory_map", "memory.MemoryMap.add_resource",
                 "memory.MemoryMap._compute_addr_range", "memory._RangeMap.insert/overlaps"],
-    "also": 'address widths 12/16; a second builder used while scopes of the first are open; as_memory_map() repeated after a rejection',
+    "also": 'address widths 12/16; a second builder used while scopes of the first are open; nested scope programs with registers added after an inner block closed and scope values repeated along a path; as_memory_map() repeated after a rejection',
     "bounds": "geometry (addr width 3-6, data width 8/16/32, granularity dividing it); sequences of 2-3 (thorough "
               "2-4) additions of real registers with widths in {0,1,dw,dw+1,2dw+1,4dw}, each at an implicit or a "
               "SYMBOLIC explicit offset in [0, 2^aw * dw/g + 2], inside Cluster/Index scopes from a small grammar, "
@@ -60,8 +60,39 @@ def configs(tier, seed):
                          # a rejected call made INSIDE the scopes just before the real one (same register twice,
                          # empty name, misaligned offset): it must raise and leave no trace
                          "bad_first": rnd.choice([None, None, "twice", "name", "offset"])})
-        out.append({"aw": aw, "dw": dw, "g": g, "adds": adds, "late": rnd.random() < 0.2})
+        cfg = {"aw": aw, "dw": dw, "g": g, "adds": adds, "late": rnd.random() < 0.2}
+        if len(out) % 4 == 3:
+            # scope PROGRAM: nested Cluster/Index blocks with registers added at every level, also after an inner
+            # block has closed; scope values repeat along a path (Index(0)/Cluster("ch")/Index(0))
+            for i, a in enumerate(adds):
+                a["name"], a["bad_first"] = f"r{i}", None
+            cfg["prog"] = _gen_prog(rnd, list(range(n)), 3)
+        out.append(cfg)
+    # hand-picked programs: a scope value repeated along one path, registers added after the inner block closed
+    A = lambda i: {"add": i}
+    S = lambda kv, *body: {"scope": list(kv), "body": list(body)}
+    for prog in ([S(("i", 0), S(("c", "ch"), S(("i", 0), A(0)), A(1)), A(2))],
+                 [S(("c", "a"), S(("c", "b"), S(("c", "a"), A(0)), A(1))), A(2)],
+                 [S(("i", 1), S(("i", 1), A(0)), A(1), S(("i", 1), S(("i", 0), A(2))))]):
+        for aw, dw, g in ((4, 8, 8), (5, 32, 8)):
+            out.append({"aw": aw, "dw": dw, "g": g, "late": False, "prog": prog,
+                        "adds": [{"w": w, "off": False, "scope": 0, "name": f"r{i}", "bad_first": None}
+                                 for i, w in enumerate((dw, 1, 2 * dw + 1))]})
     return out
+
+
+def _gen_prog(rnd, idx, depth):
+    """distribute the add indices (in order) over a random nesting of scopes"""
+    items = []
+    while idx:
+        if depth and rnd.random() < 0.6:
+            k = rnd.randint(1, len(idx))
+            body, idx = idx[:k], idx[k:]
+            items.append({"scope": rnd.choice([["i", 0], ["i", 0], ["i", 1], ["c", "ch"], ["c", "ch"], ["c", "x"]]),
+                          "body": _gen_prog(rnd, body, depth - 1)})
+        else:
+            items.append({"add": idx.pop(0)})
+    return items
 
 
 def _pow2_ceil(c):
@@ -77,7 +108,35 @@ def harness_for(cfg):
         b = csr.Builder(addr_width=aw, data_width=dw, granularity=g)
         other = csr.Builder(addr_width=aw, data_width=dw, granularity=g)     # an unrelated builder used in between
         regs, offs, names = [], [], []
-        for i, a in enumerate(cfg["adds"]):
+        stack = []
+
+        def run(items):
+            for it in items:
+                if "add" not in it:
+                    kind, val = it["scope"]
+                    with (b.Cluster(val) if kind == "c" else b.Index(val)):
+                        stack.append(val)
+                        run(it["body"])
+                        stack.pop()
+                    continue
+                i = it["add"]
+                a = cfg["adds"][i]
+                r = Reg(a["w"])
+                o = E.int(f"o{i}", 0, top * ratio + 2) if a["off"] else None
+                try:
+                    b.add(a["name"], r, offset=o)
+                except ValueError:
+                    E.observe("add-refused")
+                    E.prove(o is not None and (o % ratio != 0), "add() refused an offset that is a multiple of data_width/granularity")
+                    continue
+                if o is not None:
+                    E.prove(o % ratio == 0, "add() accepted an offset that is not a multiple of data_width/granularity")
+                regs.append(r)
+                offs.append(o)
+                names.append(tuple(stack) + (a["name"],))
+        if cfg.get("prog"):
+            run(cfg["prog"])
+        for i, a in enumerate(cfg["adds"] if not cfg.get("prog") else []):
             r = Reg(a["w"])
             o = E.int(f"o{i}", 0, top * ratio + 2) if a["off"] else None
             scope = SCOPES[a["scope"]]
@@ -117,7 +176,7 @@ def harness_for(cfg):
             regs.append(r)
             offs.append(o)
             names.append(tuple(v for _, v in scope) + (a["name"],))
-        if cfg["adds"]:
+        if cfg["adds"] and not cfg.get("prog"):
             om = other.as_memory_map()
             E.prove([tuple(n_) for _, n_, _ in om.resources()] == [("solo",)],
                     "a register added to another builder picked up this builder's scope")
